@@ -99,7 +99,7 @@ pub enum Rec {
     /// End of the run; endpoints still exist.
     End { t_ns: u64 },
     /// After every endpoint object has been dropped.
-    Teardown { live: Vec<i64>, mismatches: u64 },
+    Teardown { live: Vec<i64>, live_blocks: Vec<i64>, zero_size: u64, mismatches: u64 },
 }
 
 #[derive(Clone, Debug, PartialEq)]
@@ -642,11 +642,12 @@ impl<'a> World<'a> {
                 d.word(10);
                 d.word(*t_ns);
             }
-            Rec::Teardown { live, mismatches } => {
+            Rec::Teardown { live, live_blocks, zero_size, mismatches } => {
                 d.word(11);
-                for l in live.iter() {
+                for l in live.iter().chain(live_blocks.iter()) {
                     d.word(*l as u64);
                 }
+                d.word(*zero_size);
                 d.word(*mismatches);
             }
         }
@@ -1134,15 +1135,20 @@ impl<'a> World<'a> {
                             EndpointKind::Hc { peer, .. } => Some(self.addrs[*peer]),
                             _ => None,
                         };
+                        // an application may drop the iterator step() returns before it is
+                        // exhausted (only scenarios that set the parameter do)
+                        let partial = self.plan.param("partial_events_permille", 0.0) as u64;
+                        let k = key(&[self.plan.seed, self.plan.run, self.call + 1, 0x7061_7274]);
+                        let take = if partial > 0 && k % 1000 < partial { ((k >> 20) % 3) as usize } else { usize::MAX };
                         self.guarded(ep, op, oracles, move |e, out| match &mut e.obj {
                             EpObj::Hc(hc) => hc_step(hc, &mut e.inbox, peer_addr.unwrap(), out),
                             EpObj::Client(c) => {
-                                for ev in c.step() {
+                                for ev in c.step().take(take) {
                                     out.events.push((None, client_event(ev)));
                                 }
                             }
                             EpObj::Server(s) => {
-                                for ev in s.step() {
+                                for ev in s.step().take(take) {
                                     let (a, ev) = server_event(ev);
                                     out.events.push((Some(a), ev));
                                 }
@@ -1530,6 +1536,8 @@ fn hc_step(hc: &mut uv::HalfConnection, inbox: &mut VecDeque<(SocketAddr, Rc<Vec
 pub fn execute(plan: &Plan, oracles: &mut Vec<Box<dyn Oracle>>, opts: ExecOpts, adversary: Option<Box<dyn Adversary>>) -> Result<RunOutcome, String> {
     let n = plan.endpoints.len();
     let base: Vec<i64> = (0..=n).map(|d| alloc::live(d)).collect();
+    let base_blocks: Vec<i64> = (0..=n).map(|d| alloc::live_blocks(d)).collect();
+    alloc::reset_zero_size_requests();
     let mismatches_before = alloc::mismatches();
     let world = World::new(plan, opts, adversary)?;
     let mut outcome = world.run(oracles);
@@ -1537,7 +1545,8 @@ pub fn execute(plan: &Plan, oracles: &mut Vec<Box<dyn Oracle>>, opts: ExecOpts, 
         let addrs: Vec<SocketAddr> = plan.endpoints.iter().map(|e| e.addr.parse().unwrap()).collect();
         let cx = Cx { plan, addrs: &addrs, now_ns: outcome.stats.sim_us * 1000 };
         let live: Vec<i64> = (1..=n).map(|d| alloc::live(d) - base[d]).collect();
-        let rec = Rec::Teardown { live, mismatches: alloc::mismatches() - mismatches_before };
+        let live_blocks: Vec<i64> = (1..=n).map(|d| alloc::live_blocks(d) - base_blocks[d]).collect();
+        let rec = Rec::Teardown { live, live_blocks, zero_size: alloc::zero_size_requests(), mismatches: alloc::mismatches() - mismatches_before };
         for o in oracles.iter_mut() {
             if let Some(v) = o.on(&rec, &cx) {
                 if outcome.violation.is_none() {
